@@ -15,15 +15,23 @@ _m(
     "scaled so that the geometric shift at the mask edge is up to ~3 scan pixels, each key canonical or by its alias (defocus, "
     "astigmatism, astigmatism_angle, coma, coma_angle, Cs), dictionary order either way; rotation angle 0 or in [-pi, pi]; "
     "semi-angle cut-off crossing the mask edge (soft-aperture weights in (0,1)) or 3x the mask radius (all weights 1); "
-    "hyper-parameters given at construction or as override_* arguments of reconstruct; 1 case in 5 is a 'lattice' "
+    "hyper-parameters given at construction ('init'), as override_* arguments of reconstruct on an instance built without them "
+    "('override'), or as override_* arguments on an instance built with OTHER non-zero values for the same keys ('decoy': "
+    "rotation 1.3 or -angle, coefficients 0.5..2.5 shift units, angles +0.7; in decoy cases the rotation angle is exactly "
+    "0.0 in 1 of 2 and one coefficient exactly 0.0 in 1 of 3, so that overrides of exactly 0.0 over non-zero "
+    "construction-time values occur in ~1/4 of all cases of both kinds); 1 case in 5 is a 'lattice' "
     "configuration (isotropic sampling, scan-frequency step 0.5/1/2 detector pixels exactly, rotation and aberration angles "
     "multiples of pi/4, cut-off on a half-integer pixel radius) where exact ties and transfer-function zeros occur.  (meta) adds kernel name over all 21 "
     "spellings of the five kernels (ssb/single-sideband/acbf/..., obf, mf, prlx/parallax/tcbf/..., icom/center-of-mass, mixed "
     "case) with a second spelling of the same kernel for the batched calls, upsampling None/1/2/3, q_lowpass (1 in 2, above the "
     "first scan frequency) and q_highpass (1 in 3), parallax_flip_phase, soft_edges, the batch sizes {1, n-1, n, largest "
-    "non-divisor of n} + up to 3 more (all of 1..n when n <= 9) + one size > n (1 in 3), a call history of 0..2 earlier "
-    "reconstruct calls on the re-used instance (any kernel spelling, rotation angle changed by 0.05..3 rad with the same "
-    "aberrations (3 in 4) or halved aberrations, any batch size), a second stack seed with coefficients a, b in [-2, 2] \\ {0} "
+    "non-divisor of n} + up to 3 more (all of 1..n when n <= 9) + one size > n (1 in 3), butterworth_order (default or "
+    "2/4/8/24), matched_filter_norm_epsilon (default or 0.03/0.5), a call history of 0..3 earlier reconstruct calls on the "
+    "re-used instance, each being the main call with ONE argument changed (two, 1 in 4): butterworth_order (3x weight; a "
+    "cut-off is then forced on the main call), q_lowpass / q_highpass (other value or None), upsampling factor, kernel, "
+    "aberrations (halved, or every coefficient exactly 0.0), rotation angle (+-0.05..3 rad, or exactly 0.0), batch size "
+    "only, and matched_filter_norm_epsilon (mf) / parallax_flip_phase (parallax) when the main call uses that kernel; a "
+    "second stack seed with coefficients a, b in [-2, 2] \\ {0} "
     "and a batch size for the linearity runs, and a random bipartition of the reconstruction mask.  (analytic) parallax "
     "spelling, parallax_flip_phase=False, no upsampling/filters, random batch size.  A meta case is NON-TRIVIAL when the "
     "reconstruction mask has >= 4 pixels, at least one tested batch size b with 1 < b < n does not divide n (>= 2 batches of "
@@ -83,7 +91,8 @@ _m(
     "re-used instance with a call history, linearity in the stack, weighted recombination of complementary sub-masks, sub-mask "
     "vs fresh instance) "
     "and a float64 reference model for the parallax kernel (autograd shifts + DFT translation)",
-    text="Generated-input search.  Each configuration is reconstructed 10-25 times through the public entry point and the "
+    text="Budget per worker: quick 200 meta + 350 analytic cases (2 workers), thorough 1200 meta + 4000 analytic cases (16 "
+    "workers: 19 200 + 64 000).  Generated-input search.  Each configuration is reconstructed 10-25 times through the public entry point and the "
     "results are compared with each other according to the relations the property names; parallax reconstructions without "
     "sign flipping are compared with an independent float64 model.  Exploration only: no absence claim.",
     note="The relations do not pin the content of the ssb/obf/mf/icom kernels or of up-sampled reconstructions (a wrong but "
